@@ -130,35 +130,7 @@ def run(ck, prog, tier, load):
         ck.ob("C09-d.literal-escaped", "push#%d" % n_p, ok, parse, bb, "pattern text reaches the route regex only escaped (an unescaped '.' would match '/' and cross a segment boundary)")
     ck.anchor("C09-d", n_p, 2, "regex fragments pushed in ResourceDef::parse")
 
-    # ---- (e) innermost data wins ------------------------------------------------------------------
-    AD = r"\.actix_web::request::HttpRequestInner\.app_data$"
-    for b, bb, t, m in method_calls_on_field(prog, AD, ["actix_web"]):
-        if "::tests::" in b.npath:
-            continue
-        fn = b.npath
-        if m == "push":
-            ok = fn.endswith("ServiceRequest::add_data_container") or fn.endswith("HttpRequest::new")
-            ck.ob("C09-e.data-stack-effect", "%s|push" % fn.split("::")[-1], ok, b, bb, "app_data.push in %s (containers are only added while descending into a scope/resource)" % fn)
-        elif m == "truncate":
-            k = b.op_expr(t["args"][1])
-            ok = fn.endswith("Drop>::drop") and k[:3] == ("const", None, 1)
-            ck.ob("C09-e.data-stack-effect", "%s|truncate" % fn.split("::")[-1], ok, b, bb, "app_data.truncate(1) on recycling keeps only the application root container")
-        elif m in ORDER_BREAKING or m in ("clear", "drain", "extend", "append"):
-            ck.ob("C09-e.data-stack-effect", "%s|%s" % (fn.split("::")[-1], m), False, b, bb, "unexpected %s on the data-container stack" % m)
-    dr = prog.one(r"^<actix_web::request::HttpRequest as core::ops::drop::Drop>::drop$")
-    tr = [bb for (bd, bb, t, m) in method_calls_on_field(prog, AD, bodies=[dr]) if m == "truncate"]
-    ps = [bb for bb, t in dr.calls(r"HttpRequestPool::push$")]
-    ck.ob("C09-e.stack-cut-on-recycle", "Drop for HttpRequest", bool(tr) and bool(ps) and dr.must_pass([0], ps, tr)[0], dr, tr[0] if tr else None, "every path that returns the request object to the pool cuts the data stack back to the root")
-    for pat in (r"^actix_web::request::HttpRequest::app_data$", r"^actix_web::service::ServiceRequest::app_data$"):
-        b = prog.one(pat)
-        names = {cname(t) for bb, t in b.calls()}
-        ok = any(rx(r"::rev$").search(n) for n in names) and any(rx(r"Rev<.*Iterator>::next$|rev::Rev.*next$").search(n) for n in names)
-        somes = ret_sites(b, lambda e: is_agg(e, r"Option::Some$"))
-        ck.ob("C09-e.lookup-innermost-first", b.npath.split("::")[-2] + "::app_data", ok and bool(somes), b, None, "app_data() searches the container stack from the innermost registration outwards and returns the first hit")
-    for b in prog.find(r"^<actix_web::(scope::ScopeService|resource::ResourceService|app_service::AppRouting) as actix_service::Service<actix_web::service::ServiceRequest>>::call$"):
-        pass
-    adders = prog.callers(r"^actix_web::service::ServiceRequest::add_data_container$")
-    ck.anchor("C09-e", len(adders), 2, "callers of add_data_container (scope and resource middleware)")
+    data_stack_rules(ck, prog, "C09-e")
     # ---- (f) a default service survives configure() -----------------------------------------------
     # `scope.default_service(D).configure(f)`: the builder's default may be replaced only by a default that the
     # configuration closure actually supplied; assigning the (possibly empty) option drops D, so unmatched requests fall
@@ -176,3 +148,38 @@ def run(ck, prog, tier, load):
     # routing matches the path of THIS request: the recycled Url object is overwritten completely (shared with C11-d)
     from .c11 import url_update
     url_update(ck, prog, "C09-d")
+
+
+def data_stack_rules(ck, prog, P):
+    """the per-request stack of data containers: root at index 0, scope/resource containers pushed while descending,
+    cut back to the root when the request object is recycled, searched innermost-first; shared by C09 (innermost
+    registration wins) and C11 (scoped data of an earlier request is not visible later)"""
+    # ---- (e) innermost data wins ------------------------------------------------------------------
+    AD = r"\.actix_web::request::HttpRequestInner\.app_data$"
+    for b, bb, t, m in method_calls_on_field(prog, AD, ["actix_web"]):
+        if "::tests::" in b.npath:
+            continue
+        fn = b.npath
+        if m == "push":
+            ok = fn.endswith("ServiceRequest::add_data_container") or fn.endswith("HttpRequest::new")
+            ck.ob(P + ".data-stack-effect", "%s|push" % fn.split("::")[-1], ok, b, bb, "app_data.push in %s (containers are only added while descending into a scope/resource)" % fn)
+        elif m == "truncate":
+            k = b.op_expr(t["args"][1])
+            ok = fn.endswith("Drop>::drop") and k[:3] == ("const", None, 1)
+            ck.ob(P + ".data-stack-effect", "%s|truncate" % fn.split("::")[-1], ok, b, bb, "app_data.truncate(1) on recycling keeps only the application root container")
+        elif m in ORDER_BREAKING or m in ("clear", "drain", "extend", "append"):
+            ck.ob(P + ".data-stack-effect", "%s|%s" % (fn.split("::")[-1], m), False, b, bb, "unexpected %s on the data-container stack" % m)
+    dr = prog.one(r"^<actix_web::request::HttpRequest as core::ops::drop::Drop>::drop$")
+    tr = [bb for (bd, bb, t, m) in method_calls_on_field(prog, AD, bodies=[dr]) if m == "truncate"]
+    ps = [bb for bb, t in dr.calls(r"HttpRequestPool::push$")]
+    ck.ob(P + ".stack-cut-on-recycle", "Drop for HttpRequest", bool(tr) and bool(ps) and dr.must_pass([0], ps, tr)[0], dr, tr[0] if tr else None, "every path that returns the request object to the pool cuts the data stack back to the root")
+    for pat in (r"^actix_web::request::HttpRequest::app_data$", r"^actix_web::service::ServiceRequest::app_data$"):
+        b = prog.one(pat)
+        names = {cname(t) for bb, t in b.calls()}
+        ok = any(rx(r"::rev$").search(n) for n in names) and any(rx(r"Rev<.*Iterator>::next$|rev::Rev.*next$").search(n) for n in names)
+        somes = ret_sites(b, lambda e: is_agg(e, r"Option::Some$"))
+        ck.ob(P + ".lookup-innermost-first", b.npath.split("::")[-2] + "::app_data", ok and bool(somes), b, None, "app_data() searches the container stack from the innermost registration outwards and returns the first hit")
+    for b in prog.find(r"^<actix_web::(scope::ScopeService|resource::ResourceService|app_service::AppRouting) as actix_service::Service<actix_web::service::ServiceRequest>>::call$"):
+        pass
+    adders = prog.callers(r"^actix_web::service::ServiceRequest::add_data_container$")
+    ck.anchor(P, len(adders), 2, "callers of add_data_container (scope and resource middleware)")
